@@ -524,6 +524,9 @@ pub fn err_class(e: &reval::Error) -> String {
         R::ValueOutOfBounds(..) => "ValueOutOfBounds".into(),
         R::DivisionByZero => "DivisionByZero".into(),
         R::InvalidSymbol(n) => format!("InvalidSymbol({n})"),
+        // the crate may grow error variants: keep the harness compiling
+        #[allow(unreachable_patterns)]
+        other => format!("Other({other})"),
     }
 }
 
